@@ -56,6 +56,14 @@ Theorem C08_full_statement_when_no_lossy_schema : msgp_lossy = [] -> C08_full_st
 Proof. exact msgp_full_if_no_lossy. Qed.
 Print Assumptions C08_full_statement_when_no_lossy_schema.
 
+(* On the current tree the translator finds no lossy schema (msgp_lossy = []), so the full
+   statement holds for every schema of the tree.  If a hand-written UnmarshalMsg stops copying its
+   fields back (as node.Pool did before fe880b9) the translator reports it, this theorem stops
+   checking and the engine shows the lost value. *)
+Theorem C08_full_statement_holds : C08_full_statement.
+Proof. exact msgp_full_holds. Qed.
+Print Assumptions C08_full_statement_holds.
+
 (* A type whose hand-written UnmarshalMsg decodes into a shadow value and copies nothing back
    (TDrop, found by the translator in node.Pool) reads back as its zero value; any schema of the
    tree of that form refutes the full statement as soon as it has a non-zero value. *)
